@@ -16,10 +16,17 @@
                           (map_ok), tmp_scatter zeroed, identity ordering;
      all_form d c k       all_static + scalings c + every stored value = Kall d c (row, col);
      all_scal_ok d c      scal_ok (KKTSparseFullProofs.v) + delta <> 0 + s_l z_inv_l + delta <> 0.
-   NOT proved: update_data = fresh (T2 for this mode; the lemmas it needs -- retranspose_ok, scatter_cache_ok, all_refresh_form --
-   are proved, the composition is not written), the value part of init (all_init leaves the canonical values for unit scalings),
-   and the permuted versions.  KKT_EQ_ELIMINATED / KKT_INEQ_ELIMINATED are not modelled. *)
-From PIQP Require Import Base CSC C14LemmasProofs LinAlg KKTProofs KKTSparseFull KKTSparseFullProofs KKTSparseAll KKTSparseAllTrProofs KKTSparseAllProofs.
+     covers_all mask ..   bit A / bit G set for a changed A / G; any change (P, box scalings included) => mask <> 0;
+     cache_pat k' k       the cached transposes of k' and k have the same inner / outer indices;
+     canon_caches d k     ... namely those Eigen's transposition of the current data gives (holds after init, kept by every operation);
+     all_fresh d c        init followed by apply_scalings c.
+   (b) complete: C13_all_init_form.  (d) / T2: C13_all_update_data_form (static invariant and, for a non-zero covering mask, the
+   canonical form of the NEW data), C13_all_update_data_refresh_eq_fresh (stored matrix = fresh object, non-zero mask),
+   C13_all_update_data_eq_fresh (update_data, any covering mask, followed by update_scalings: stored matrix = fresh init followed
+   by the same update_scalings).
+   NOT proved: the permuted versions (arbitrary fill-reducing ordering; perm_addr_okb is evaluated by the stage on every tested
+   ordering, the simulation lemmas for this mode's loops are not written).  KKT_EQ_ELIMINATED / KKT_INEQ_ELIMINATED are not modelled. *)
+From PIQP Require Import Base CSC C14LemmasProofs LinAlg KKTProofs KKTSparseFull KKTSparseFullProofs KKTSparseAll KKTSparseAllTrProofs KKTSparseAllProofs KKTSparseAllDataProofs.
 Local Open Scope nat_scope.
 
 (* (1) the merge walk.  src_ok n kcols S: S is compressed with n columns, strictly increasing, each contained in the column kcols j
@@ -152,6 +159,69 @@ Theorem C13_all_form_denotes : forall d : sdata, wf_sdata d -> upper_only (sd_P 
 Proof. exact all_form_denotes. Qed.
 Print Assumptions C13_all_form_denotes.
 
+(* ===== (b) complete: init leaves the canonical form for unit scalings, box terms included ===== *)
+Theorem C13_all_init_form : forall d : sdata, wf_sdata d -> upper_only (sd_P d) = true -> sorted_colsb (sd_P d) = true ->
+  forall rho delta : F, delta <> 0%Qc -> (1 + delta)%Qc <> 0%Qc -> scal_ok d (unit_scal d rho delta) ->
+  exists k, all_init d rho delta None = Ok k /\ all_form d (unit_scal d rho delta) k.
+Proof. exact all_init_form. Qed.
+Print Assumptions C13_all_init_form.
+
+(* ===== (d): update_data on new values of the same pattern ===== *)
+Theorem C13_all_update_data_form : forall (d : sdata) (k : akkt) (mask : nat) (px ax gx lbs ubs : Vec),
+  wf_sdata d -> upper_only (sd_P d) = true -> sorted_colsb (sd_P d) = true -> all_static d k ->
+  length px = nnz (sd_P d) -> length ax = nnz (sd_AT d) -> length gx = nnz (sd_GT d) ->
+  covers_all mask d px ax gx lbs ubs ->
+  let d' := with_all d px ax gx lbs ubs in
+  (mask <> 0 -> all_scal_ok d' (ak_sc k)) ->
+  exists k', all_update_data d' k mask = Ok k' /\ all_static d' k' /\ ak_sc k' = ak_sc k /\ cache_pat k' k /\
+             (mask <> 0 -> all_form d' (ak_sc k) k') /\ (mask = 0 -> k' = k).
+Proof. exact all_update_data_form. Qed.
+Print Assumptions C13_all_update_data_form.
+
+(* the cached transposes keep the indices of Eigen's transposition: after init, along cache_pat, and under new values *)
+Theorem C13_all_canon_caches :
+  (forall d rho delta k, all_init d rho delta None = Ok k -> canon_caches d k) /\
+  (forall d k k', canon_caches d k -> cache_pat k' k -> canon_caches d k') /\
+  (forall d px ax gx lbs ubs k, wf_sdata d -> length ax = nnz (sd_AT d) -> length gx = nnz (sd_GT d) ->
+     canon_caches d k -> canon_caches (with_all d px ax gx lbs ubs) k).
+Proof. split; [exact canon_init|]. split; [exact canon_pat|exact canon_with_all]. Qed.
+Print Assumptions C13_all_canon_caches.
+
+(* T2, non-zero covering mask: update_data alone leaves the stored matrix of a fresh object on the new data with the same scalings *)
+Theorem C13_all_update_data_refresh_eq_fresh : forall (d : sdata) (k : akkt) (mask : nat) (px ax gx lbs ubs : Vec),
+  wf_sdata d -> upper_only (sd_P d) = true -> sorted_colsb (sd_P d) = true -> all_static d k -> canon_caches d k ->
+  length px = nnz (sd_P d) -> length ax = nnz (sd_AT d) -> length gx = nnz (sd_GT d) ->
+  covers_all mask d px ax gx lbs ubs -> mask <> 0 ->
+  let d' := with_all d px ax gx lbs ubs in
+  let c := ak_sc k in
+  all_scal_ok d' c -> (1 + sc_delta c)%Qc <> 0%Qc -> scal_ok d' (unit_scal d' (sc_rho c) (sc_delta c)) ->
+  exists k' kf, all_update_data d' k mask = Ok k' /\ all_fresh d' c = Ok kf /\
+                all_form d' c k' /\ all_form d' c kf /\ canon_caches d' k' /\
+                ak_kp k' = ak_kp kf /\ ak_ki k' = ak_ki kf /\ ak_kx k' = ak_kx kf.
+Proof. exact all_update_data_eq_fresh. Qed.
+Print Assumptions C13_all_update_data_refresh_eq_fresh.
+
+(* T2, any covering mask: update_data followed by update_scalings reaches the canonical form of the NEW data and leaves the stored
+   matrix of a fresh init on the new data followed by the same update_scalings *)
+Theorem C13_all_update_data_eq_fresh : forall (d : sdata) (k : akkt) (mask : nat) (px ax gx lbs ubs : Vec)
+    (rho0 delta0 rho delta : F) (s s_lb s_ub z z_lb z_ub zi zlbi zubi : Vec),
+  wf_sdata d -> upper_only (sd_P d) = true -> sorted_colsb (sd_P d) = true -> all_static d k -> canon_caches d k ->
+  length px = nnz (sd_P d) -> length ax = nnz (sd_AT d) -> length gx = nnz (sd_GT d) ->
+  covers_all mask d px ax gx lbs ubs ->
+  let d' := with_all d px ax gx lbs ubs in
+  (mask <> 0 -> all_scal_ok d' (ak_sc k)) ->
+  delta0 <> 0%Qc -> (1 + delta0)%Qc <> 0%Qc -> scal_ok d' (unit_scal d' rho0 delta0) ->
+  sd_nlb d <= length s_lb -> sd_nlb d <= length z_lb -> sd_nub d <= length s_ub -> sd_nub d <= length z_ub ->
+  vinv z = Ok zi -> vinv (head (sd_nlb d) z_lb) = Ok zlbi -> vinv (head (sd_nub d) z_ub) = Ok zubi ->
+  (forall c0, all_scal_ok d' (new_scal d' c0 rho delta s s_lb s_ub zi zlbi zubi)) ->
+  exists k1 k2 k0 k3,
+    all_update_data d' k mask = Ok k1 /\ all_update_scalings d' k1 rho delta s s_lb s_ub z z_lb z_ub = Ok k2 /\
+    all_init d' rho0 delta0 None = Ok k0 /\ all_update_scalings d' k0 rho delta s s_lb s_ub z z_lb z_ub = Ok k3 /\
+    all_form d' (new_scal d' (ak_sc k) rho delta s s_lb s_ub zi zlbi zubi) k2 /\
+    ak_kp k2 = ak_kp k3 /\ ak_ki k2 = ak_ki k3 /\ ak_kx k2 = ak_kx k3.
+Proof. exact all_update_data_scalings_eq_fresh. Qed.
+Print Assumptions C13_all_update_data_eq_fresh.
+
 (* non-vacuity: the example of Properties_C13_full.v (P 3x3 without stored (1,1), p = m = 1): init under the identity ordering
    and under the ordering (2,0,1); the walk maps the four entries of P_utri to positions 0,1,3,4 of the 5-entry reduced matrix *)
 Local Open Scope Qc_scope.
@@ -168,3 +238,10 @@ Example exa_create : exists am, all_create exa_d (exa_q 10) (exa_q 7) = Ok am /\
 Proof. eexists. split. vm_compute. reflexivity. repeat split. Qed.
 Example exa_init_perm : exists k, all_init exa_d (exa_q 10) (exa_q 7) (Some [2; 0; 1]%nat) = Ok k /\ ak_pinv k = [1; 2; 0]%nat.
 Proof. eexists. split. vm_compute. reflexivity. reflexivity. Qed.
+
+(* update_data with mask A|G (6) on new values of P, A, G and the box scalings: the stored matrix is the one of a fresh object *)
+Definition exa_d' : sdata := with_all exa_d [exa_q 6; exa_q (-2); exa_q 1; exa_q 9] [exa_q 3; exa_q (-1)] [exa_q (-4)] [exa_q 3; exa_q 1; exa_q 1] [exa_q 1; exa_q 1; exa_q 1].
+Example exa_update_data : exists k k1 kf,
+  all_init exa_d (exa_q 10) (exa_q 7) None = Ok k /\ all_update_data exa_d' k 6 = Ok k1 /\ all_fresh exa_d' (ak_sc k) = Ok kf /\
+  ak_kx k1 = ak_kx kf /\ ak_ki k1 = ak_ki kf.
+Proof. eexists; eexists; eexists. split; [vm_compute; reflexivity|]. split; [vm_compute; reflexivity|]. split; [vm_compute; reflexivity|]. split; vm_compute; reflexivity. Qed.
